@@ -67,6 +67,8 @@ for Crossbeam<'a, ItemType, BUFFER_SIZE, MAX_STREAMS> {
 
     #[inline(always)]
     fn pending_items_count(&self) -> u32 {
+        #[cfg(feature = "verif")]
+        crate::verif::yield_point("yield", self as *const Self as usize + 1);
         self.tx.len() as u32
     }
 
@@ -96,13 +98,20 @@ for Crossbeam<'a, ItemType, BUFFER_SIZE, MAX_STREAMS> {
 
     #[inline(always)]
     fn send(&self, item: ItemType) -> keen_retry::RetryConsumerResult<(), ItemType, ()> {
+        #[cfg(feature = "verif")]
+        crate::verif::yield_point("yield", self as *const Self as usize + 1);
         match self.tx.len() {
             len_before if len_before <= 2 => {
+                #[cfg(feature = "verif")]
+                crate::verif::yield_point("yield", self as *const Self as usize + 2);
                 let ret = self.tx.try_send(item);
                 self.streams_manager.wake_stream(0);
                 ret
             },
+            #[cfg(not(feature = "verif"))]
             _ => self.tx.try_send(item),
+            #[cfg(feature = "verif")]
+            _ => { crate::verif::yield_point("yield", self as *const Self as usize + 2); self.tx.try_send(item) },
         }
             .map_or_else(|item| match item {
                                                                 TrySendError::Full(item) => keen_retry::RetryResult::Transient { input: item, error: () },
@@ -115,6 +124,8 @@ for Crossbeam<'a, ItemType, BUFFER_SIZE, MAX_STREAMS> {
     // this method uses a little hack due to crossbeam not having zero-copy APIs...
     // taking the crossbeam channel out of Tier-1 channels for this lib
     fn send_with<F: FnOnce(&mut ItemType)>(&self, setter: F) -> keen_retry::RetryConsumerResult<(), F, ()> {
+        #[cfg(feature = "verif")]
+        crate::verif::yield_point("yield", self as *const Self as usize + 3);
         if self.tx.is_full() {
             return keen_retry::RetryResult::Transient { input: setter, error: () }
         }
@@ -137,6 +148,8 @@ for Crossbeam<'a, ItemType, BUFFER_SIZE, MAX_STREAMS> {
                              Fut: Future<Output=&'a mut ItemType>>
                             (&'a self,
                              setter: F) -> keen_retry::RetryConsumerResult<(), F, ()> {
+        #[cfg(feature = "verif")]
+        crate::verif::yield_point("yield", self as *const Self as usize + 3);
         if self.tx.is_full() {
             return keen_retry::RetryResult::Transient { input: setter, error: () }
         }
@@ -175,6 +188,8 @@ Crossbeam<'a, ItemType, BUFFER_SIZE, MAX_STREAMS> {
 
     #[inline(always)]
     fn consume(&self, stream_id: u32) -> Option<ItemType> {
+        #[cfg(feature = "verif")]
+        crate::verif::yield_point("yield", self as *const Self as usize + 4);
         match self.rx.try_recv() {
             Ok(event) => {
                 Some(event)
